@@ -91,12 +91,20 @@ func (v *verifPanic) Eval(ctx *sql.Context, row sql.Row) (interface{}, error) {
 			panic(customPanic{ID: int(k), Note: "verif-sql-canary-struct"})
 		case 4:
 			return nil, fmt.Errorf("verif-sql-plain-error-%d", k) // control: an ordinary error
+		case 5:
+			deep(1500, fmt.Sprintf("verif-sql-canary-deep-%d", k))
 		}
 	}
 	return x, nil
 }
 
 const tableRows = 700
+
+// groupByPendingMax bounds the rows left unread behind a failing GROUP BY row in generated cases (the
+// channel between rowexec's two grouping goroutines buffers 512 rows).
+const groupByPendingMax = 400
+
+const sigGroupByHang = "groupby-failure-with-more-than-512-rows-pending-never-returns"
 
 var shapes = []struct {
 	name string
@@ -111,7 +119,7 @@ var shapes = []struct {
 	{"subquery", "SELECT id FROM t WHERE id <= %[1]d AND id IN (SELECT verif_panic(id, %[2]d, %[3]d) FROM t)", func(l int) int { return l }},
 }
 
-var modeNames = []string{"panic-string", "panic-error", "nil-deref", "panic-struct", "plain-error"}
+var modeNames = []string{"panic-string", "panic-error", "nil-deref", "panic-struct", "plain-error", "deep-stack-panic"}
 
 func posClass(k, limit int) string {
 	switch {
@@ -182,11 +190,18 @@ func serverLevel(r *core.Run) {
 			default:
 				k = 1 + rnd.Intn(limit)
 			}
-			if sh.name == "subquery" && k <= tableRows {
-				// the subquery scans the whole table: it fails whenever k is a stored id
+			if sh.name == "groupby" && k <= limit && limit-k > groupByPendingMax {
+				// known finding (via=domain): a failure in the grouping goroutine with more than 512 rows still
+				// to be read leaves the reading goroutine blocked on its channel and Wait() never returns
+				k = limit - rnd.Intn(groupByPendingMax+1)
+				rec.Count("server.groupby-cases-moved-out-of-the-hanging-class", 1)
 			}
 			q := fmt.Sprintf(sh.q, limit, k, mode)
+			// the subquery scans the whole table: it fails whenever k is a stored id
 			willFail := k <= limit || (sh.name == "subquery" && k <= tableRows)
+			if sh.name == "orderby" && limit < 2 {
+				willFail = false // a single row is never compared, the sort expression is not evaluated
+			}
 			pc := posClass(k, limit)
 			if sh.name == "subquery" && k <= tableRows && k > limit {
 				pc = "middle"
@@ -300,6 +315,7 @@ func serverLevel(r *core.Run) {
 			}
 		}
 	})
+	pinnedGroupByHang(r, e)
 	r.Count("server.cases-completed", completed)
 	r.Count("server.panics-raised", atomic.LoadInt64(&panicsRaised))
 	r.Floor(completed*10 >= int64(ncases)*8, fmt.Sprintf("only %d of %d server cases completed", completed, ncases))
@@ -319,4 +335,33 @@ func runQuery(ctx context.Context, db *dsql.DB, q string) (int, error) {
 		n++
 	}
 	return n, rows.Err()
+}
+
+// pinnedGroupByHang replays the known finding's witness in-process under a 10 s watchdog (the hung
+// statement's goroutines stay behind; this runs last).
+func pinnedGroupByHang(r *core.Run, e *core.Eng) {
+	// The hang is a race between the reading goroutine filling its 512-row channel and the group
+	// context being cancelled, so the witness is attempted several times; attempts that do not hang
+	// return an error within milliseconds.
+	q := fmt.Sprintf(shapes[3].q, tableRows, 1, 5)
+	hung, attempts := false, 0
+	var last *core.Result
+	for attempts < 40 && !hung {
+		attempts++
+		s := e.NewSess()
+		done := make(chan *core.Result, 1)
+		go func() { done <- s.Exec(q) }()
+		select {
+		case last = <-done:
+		case <-time.After(10 * time.Second):
+			hung = true
+		}
+	}
+	w := map[string]any{"sql": q, "rows_in_table": tableRows, "attempts": attempts, "an_attempt_did_not_return_within_10s": hung}
+	if last != nil {
+		w["outcome_of_returning_attempts"] = fmt.Sprint(last.Err)
+	}
+	r.Extra("groupby_hang_witness", w)
+	r.Pinned(sigGroupByHang, fmt.Sprintf("GROUP BY whose grouping expression panics on row 1 of 700: attempt %d never returned (rowexec's reading goroutine stays blocked on its 512-row channel, errgroup.Wait never returns)", attempts), hung, w)
+	r.Assume("GROUP BY cases whose failing row leaves more than 400 rows unread are moved out of the core domain (known finding " + sigGroupByHang + ", via=domain); a new break confined to that class is not seen")
 }
